@@ -195,6 +195,16 @@ def req_lit(r):
     return "(%s %s)" % (k, " ".join(args)) if args else k
 
 
+ACT_NAMES = ["read", "write", "written", "written2", "sub", "unsub"]
+
+
+def ret_lit(o):
+    if o is None or o[0] != "ret" or len(o) < 2:
+        return "RNone"
+    kind, v = o[1]
+    return "(RBytes %s)" % cbytes(bytes.fromhex(v)) if kind == "bytes" else "ROther"
+
+
 def outcome_lit(o):
     if o is None or o[0] == "ret":
         return "HReturn"
@@ -208,16 +218,21 @@ def outcome_lit(o):
             "raise": "HRaiseOther"}[k]
 
 
-def hooks_lit(hk):
-    if not hk:
+def hooks_lit(hk, acts=None):
+    if not hk and not acts:
         return "no_hooks"
-    return "(mkHooks %s)" % " ".join(outcome_lit(hk.get(n)) for n in HOOK_NAMES)
+    hk, acts = hk or {}, acts or {}
+    a = "no_acts" if not acts else "(mkActs %s)" % " ".join(
+        "None" if acts.get(n) is None else "(Some (%d, %s))" % (acts[n][0], cbytes(bytes.fromhex(acts[n][1]))) for n in ACT_NAMES)
+    r = "no_rets" if not any(len(o) > 1 for o in hk.values() if o and o[0] == "ret") else \
+        "(mkRets %s)" % " ".join(ret_lit(hk.get(n)) for n in HOOK_NAMES)
+    return "(mkHooks %s %s %s)" % (" ".join(outcome_lit(hk.get(n)) for n in HOOK_NAMES), a, r)
 
 
 def event_lit(ev):
     k = ev["op"]
     if k == "req":
-        return "(EvReq %s %s)" % (req_lit(ev["req"]), hooks_lit(ev.get("hooks")))
+        return "(EvReq %s %s)" % (req_lit(ev["req"]), hooks_lit(ev.get("hooks"), ev.get("acts")))
     if k == "sec":
         return "(EvSec %s %s)" % (cbool(ev["enc"]), cbool(ev["auth"]))
     if k == "set":
@@ -228,14 +243,28 @@ def event_lit(ev):
 def event_step(ev):
     """event -> driver step"""
     if ev["op"] == "req":
-        return {"op": "pdu", "hex": enc_req(ev["req"]).hex(), "hooks": ev.get("hooks") or {}}
+        return {"op": "pdu", "hex": enc_req(ev["req"]).hex(), "hooks": ev.get("hooks") or {}, "acts": ev.get("acts") or {}}
     return ev
+
+
+def rand_ret(rng):
+    """what a hook hands back with a plain return"""
+    k = rng.randrange(6)
+    if k <= 2:
+        return ["bytes", rand_bytes(rng, rng.choice([0, 1, 22, 23, 24, 60, 300, 600])).hex()]
+    if k == 3:
+        return ["str", "text"]
+    if k == 4:
+        return ["int", 7]
+    return ["bytes", rand_bytes(rng, 520).hex()]
 
 
 def rand_outcome(rng):
     k = rng.randrange(10)
-    if k <= 1:
+    if k == 0:
         return ["ret"]
+    if k == 1:
+        return ["ret", rand_ret(rng)]
     if k <= 3:
         return ["val", rand_bytes(rng, rng.choice([0, 1, 3, 22, 23, 60])).hex()]
     if k == 4:
@@ -410,7 +439,11 @@ class HistoryGen:
         r = self.request()
         if r[0] == "ExchangeMtu" and r[1] >= 23 and self.connected:
             self.mtu = r[1]
-        return {"op": "req", "req": r, "hooks": rand_hooks(rng, self.hooks_p, self.allow_raise)}
+        ev = {"op": "req", "req": r, "hooks": rand_hooks(rng, self.hooks_p, self.allow_raise)}
+        acts = self.rand_acts(0.15 if self.hooks_p else 0.0)
+        if acts:
+            ev["acts"] = acts
+        return ev
 
     def sub_history(self, n):
         """history focused on subscriptions: CCCD writes of every value by request / command,
@@ -471,6 +504,86 @@ class HistoryGen:
             evs.append({"op": "req", "req": (rng.choice(["Read", "ReadBlob"]),) + ((v["handle"],) if True else ()) , "hooks": {}})
             if evs[-1]["req"][0] == "ReadBlob":
                 evs[-1]["req"] = ("ReadBlob", v["handle"], rng.choice([0, len(v["value"]), 1]))
+        return evs
+
+    def rand_acts(self, p=0.15):
+        """characteristic updates performed by request-time hooks"""
+        rng = self.rng
+        decls = self.by_kind.get("KDecl", [])
+        if not decls or rng.random() > p:
+            return {}
+        acts = {}
+        for name in rng.sample(ACT_NAMES, rng.randrange(1, 3)):
+            d = rng.choice(decls)["handle"] if rng.random() < 0.9 else rng.choice(self.handles)
+            acts[name] = [d, rand_bytes(rng, rand_vlen(rng)).hex()]
+        return acts
+
+    def hook_history(self, n):
+        """history focused on user hooks: subscriptions, then requests whose hooks return objects (also long
+        bytes), override, raise, and update characteristics (the one accessed or a subscribed one)"""
+        rng = self.rng
+        decls = self.by_kind.get("KDecl", [])
+        cccds = self.by_kind.get("KCccd", [])
+        vals = self.by_kind.get("KValue", [])
+        if not decls:
+            return self.history(n)
+        evs = []
+        subscribed = []
+        def outcome(kinds):
+            k = rng.choice(kinds)
+            if k == "retlong":
+                return ["ret", ["bytes", rand_bytes(rng, rng.choice([23, 60, 300, 520])).hex()]]
+            if k == "ret":
+                return rng.choice([["ret"], ["ret", rand_ret(rng)]])
+            if k == "val":
+                return ["val", rand_bytes(rng, rng.choice([0, 3, 22, 23, 60])).hex()]
+            if k == "err":
+                return rng.choice([["authent"], ["author"], ["denied"], ["notfound"], ["gatterr", None, None, 0x80]])
+            return ["raise"] if self.allow_raise else ["denied"]
+        def target():
+            if subscribed and rng.random() < 0.7:
+                return rng.choice(subscribed)
+            return rng.choice(decls)["handle"]
+        while len(evs) < n:
+            x = rng.random()
+            if x < 0.2 and cccds:
+                c = rng.choice(cccds)
+                v = rng.choice([b"\x01\x00", b"\x02\x00", b"\x01\x00", b"\x00\x00"])
+                ev = {"op": "req", "req": (rng.choice(["Write", "WriteCmd"]), c["handle"], v), "hooks": {}}
+                if rng.random() < 0.4:
+                    ev["hooks"]["sub"] = outcome(["ret", "ret", "err", "raise", "val"])
+                    ev["acts"] = {"sub": [c["decl"], rand_bytes(rng, rng.randrange(0, 30)).hex()]} if rng.random() < 0.7 else {}
+                if v != b"\x00\x00" and c["decl"] not in subscribed:
+                    subscribed.append(c["decl"])
+                evs.append(ev)
+            elif x < 0.5 and vals:
+                v = rng.choice(vals)
+                ev = {"op": "req", "req": ("Read", v["handle"]) if rng.random() < 0.6 else
+                      ("ReadBlob", v["handle"], rng.choice([0, 1, max(0, len(v["value"]) - 1)])),
+                      "hooks": {"read": outcome(["retlong", "retlong", "ret", "val", "err", "raise"])}}
+                if rng.random() < 0.5:
+                    ev["acts"] = {"read": [rng.choice([v["decl"], target()]), rand_bytes(rng, rng.choice([0, 1, 5, 30, 60])).hex()]}
+                evs.append(ev)
+            elif x < 0.8 and vals:
+                v = rng.choice(vals)
+                hooks = {}
+                for name in rng.sample(["write", "written", "written2"], rng.randrange(1, 3)):
+                    hooks[name] = outcome(["ret", "ret", "val", "err", "raise"])
+                ev = {"op": "req", "req": (rng.choice(["Write", "WriteCmd"]), v["handle"], rand_bytes(rng, rng.randrange(0, 12))),
+                      "hooks": hooks}
+                if rng.random() < 0.6:
+                    ev["acts"] = {rng.choice(["write", "written", "written"]): [rng.choice([v["decl"], target()]),
+                                                                               rand_bytes(rng, rng.choice([0, 2, 21, 40])).hex()]}
+                evs.append(ev)
+            elif x < 0.92:
+                d = target()
+                hooks = {}
+                if rng.random() < 0.4:
+                    hooks[rng.choice(["notif", "indic"])] = outcome(["ret", "val", "err", "raise"])
+                    hooks.setdefault("notif", hooks.get("indic", ["ret"]))
+                evs.append({"op": "set", "handle": d, "value": rand_bytes(rng, rand_vlen(rng)).hex(), "hooks": hooks})
+            else:
+                evs.append(self.event())
         return evs
 
     def history(self, n):
